@@ -121,6 +121,7 @@ def explore(
     stats: ExploreStats | None = None,
     outcome_key: Callable[[Any], str] | None = None,
     max_choices: int = 10_000,
+    deadline: float | None = None,
 ) -> ExploreStats:
     """Enumerate every choice list with at most ``max_dev`` deviations (None = unbounded).
 
@@ -130,7 +131,14 @@ def explore(
     visited: dict[str, int] | None = {} if prune else None
     stack: list[list[int]] = [list(p) for p in (root_prefixes or [[]])][::-1]
     complete = True
+    import time as _t
+
     while stack:
+        if deadline is not None and _t.perf_counter() > deadline:
+            complete = False
+            st.capped = True
+            st.caps.append("time_budget")
+            break
         if max_execs is not None and st.executions >= max_execs:
             complete = False
             st.capped = True
